@@ -6,6 +6,7 @@ import (
 	"fmt"
 	"io"
 	"net"
+	"os"
 	"strings"
 	"sync"
 	"sync/atomic"
@@ -18,6 +19,8 @@ import (
 
 	"github.com/bluenviron/gomavlib/v3/pkg/frame"
 	"github.com/bluenviron/gomavlib/v3/pkg/message"
+	"go.bug.st/serial"
+
 	"verifharness/fake"
 	"verifharness/ref"
 	"verifharness/vh"
@@ -269,6 +272,20 @@ func c14serial(rep *vh.Report, seed uint64, idx int) {
 	}
 	r := vh.Sub(seed, fmt.Sprintf("c14-serial-%d", idx))
 	sf := &serialFake{errOpen: errors.New("serial open failed"), asPort: idx%2 == 1}
+	if idx%3 == 1 {
+		// the error value the real opener returns for a path that is there but is no serial port (a device node re-created
+		// with other permissions, a regular file under the device's name): a failed attempt like any other
+		if f, ferr := os.CreateTemp("", "verif-not-a-tty"); ferr == nil {
+			name := f.Name()
+			f.Close()
+			if _, oerr := serial.Open(name, &serial.Mode{BaudRate: 57600}); oerr != nil {
+				sf.errOpen = oerr
+				rep.Count("serial_scenarios_failing_with_the_real_openers_error", 1)
+				rep.Observe("the real serial opener on a regular file: " + oerr.Error())
+			}
+			os.Remove(name)
+		}
+	}
 	var opensMu sync.Mutex
 	var openTimes []time.Time
 	injected := map[int]error{}
